@@ -8,6 +8,7 @@
 package uri
 
 import (
+	"github.com/ogen-go/ogen/internal/httpcookie"
 	"io"
 	"net/http"
 	"net/url"
@@ -48,7 +49,6 @@ func specHexVal(c byte) int {
 
 // specByte is the octet denoted by the two hex digits a, b.
 func specByte(a, b byte) int { return specHexVal(a)*16 + specHexVal(b) }
-
 
 func specUpperHexDigit(n byte) byte { // n < 16
 	if n < 10 {
@@ -279,9 +279,9 @@ func countEsc(s string) int {
 //@   trigger escC(s)
 
 // Harness (property-level lemma over the two contracts): "cookie escaping is an exact inverse pair".
-//@ func verifCookieRoundTrip(s string) (out string, ok bool)
-//@   ensures inverse: ok && out == s
-//@   uses cookieInverse
+// @ func verifCookieRoundTrip(s string) (out string, ok bool)
+// @   ensures inverse: ok && out == s
+// @   uses cookieInverse
 func verifCookieRoundTrip(s string) (string, bool) { return unescapeCookie(escapeCookie(s)) }
 
 // ---------------------------------------------------------------------------
@@ -388,33 +388,33 @@ func wfTyp(t valueType) bool {
 
 // Harnesses: the real EncodeField / EncodeArray bodies run with the callback shapes the generated
 // encoders use (one EncodeValue call per field; one per item; none for an unset optional field).
-//@ func verifFieldSet(s *receiver, field string, v string) (err error)
-//@   requires nonnil: s != nil
-//@   inline EncodeField
-//@   modifies s.typ, s.fields
-//@   ensures ok:  old(s.typ) == typeNotSet || old(s.typ) == typeObject ==> err == nil && s.typ == typeObject &&
-//@                  len(s.fields) == len(old(s.fields)) + 1 && s.fields[len(s.fields)-1].Name == field && s.fields[len(s.fields)-1].Value == v &&
-//@                  vSeqEq(s.fields[:len(s.fields)-1], old(s.fields))
-//@   ensures bad: old(s.typ) != typeNotSet && old(s.typ) != typeObject ==> err != nil && s.typ == old(s.typ) && vSeqEq(s.fields, old(s.fields))
+// @ func verifFieldSet(s *receiver, field string, v string) (err error)
+// @   requires nonnil: s != nil
+// @   inline EncodeField
+// @   modifies s.typ, s.fields
+// @   ensures ok:  old(s.typ) == typeNotSet || old(s.typ) == typeObject ==> err == nil && s.typ == typeObject &&
+// @                  len(s.fields) == len(old(s.fields)) + 1 && s.fields[len(s.fields)-1].Name == field && s.fields[len(s.fields)-1].Value == v &&
+// @                  vSeqEq(s.fields[:len(s.fields)-1], old(s.fields))
+// @   ensures bad: old(s.typ) != typeNotSet && old(s.typ) != typeObject ==> err != nil && s.typ == old(s.typ) && vSeqEq(s.fields, old(s.fields))
 func verifFieldSet(s *receiver, field, v string) error {
 	return s.EncodeField(field, func(e Encoder) error { return e.EncodeValue(v) })
 }
 
-//@ func verifFieldUnset(s *receiver, field string) (err error)
-//@   requires nonnil: s != nil
-//@   inline EncodeField
-//@   modifies s.typ, s.fields
-//@   ensures ok: old(s.typ) == typeNotSet || old(s.typ) == typeObject ==> err == nil && s.typ == typeObject && vSeqEq(s.fields, old(s.fields))
+// @ func verifFieldUnset(s *receiver, field string) (err error)
+// @   requires nonnil: s != nil
+// @   inline EncodeField
+// @   modifies s.typ, s.fields
+// @   ensures ok: old(s.typ) == typeNotSet || old(s.typ) == typeObject ==> err == nil && s.typ == typeObject && vSeqEq(s.fields, old(s.fields))
 func verifFieldUnset(s *receiver, field string) error {
 	return s.EncodeField(field, func(e Encoder) error { return nil })
 }
 
-//@ func verifArray2(s *receiver, a string, b string) (err error)
-//@   requires nonnil: s != nil
-//@   inline EncodeArray
-//@   modifies s.typ, s.items
-//@   ensures ok:  old(s.typ) == typeNotSet || old(s.typ) == typeArray ==> err == nil && s.typ == typeArray && vSeqEq(s.items, []string{a, b})
-//@   ensures bad: old(s.typ) != typeNotSet && old(s.typ) != typeArray ==> err != nil && s.typ == old(s.typ) && vSeqEq(s.items, old(s.items))
+// @ func verifArray2(s *receiver, a string, b string) (err error)
+// @   requires nonnil: s != nil
+// @   inline EncodeArray
+// @   modifies s.typ, s.items
+// @   ensures ok:  old(s.typ) == typeNotSet || old(s.typ) == typeArray ==> err == nil && s.typ == typeArray && vSeqEq(s.items, []string{a, b})
+// @   ensures bad: old(s.typ) != typeNotSet && old(s.typ) != typeArray ==> err != nil && s.typ == old(s.typ) && vSeqEq(s.items, old(s.items))
 func verifArray2(s *receiver, a, b string) error {
 	return s.EncodeArray(func(e Encoder) error {
 		if err := e.EncodeValue(a); err != nil {
@@ -516,7 +516,6 @@ func specPathObjFS(style PathStyle, explode bool) byte {
 	}
 	return ','
 }
-
 
 //@ func (e *PathEncoder) object() (r string, err error)
 //@   requires recv:  e.receiver != nil
@@ -706,7 +705,8 @@ func okMxAfter(r string, param string) bool {
 
 // specPathArrayItems / specPathArrayOK: the items denoted by the serialization s of an array path
 // parameter named param, per style and explode (inverse reading of the style table, Appendix F):
-//   simple: a,b,c   label: .a,b,c / .a.b.c (explode)   matrix: ;p=a,b,c / ;p=a;p=b;p=c (explode)
+//
+//	simple: a,b,c   label: .a,b,c / .a.b.c (explode)   matrix: ;p=a,b,c / ;p=a;p=b;p=c (explode)
 func specPathArrayItems(style PathStyle, explode bool, param string, s string) []string {
 	switch style {
 	case PathStyleLabel:
@@ -971,6 +971,14 @@ func VerifCookiePresent(r *http.Request, name string) bool { return specHasCooki
 func VerifCookieWell(r *http.Request, name string) bool {
 	return wellEscaped(specCookieValue(r, name))
 }
+
+// The cookie-name check (internal/httpcookie, a copy of net/http's): an unspecified pure predicate here.
+//@ extern func httpcookie.IsCookieNameValid(raw string) (ok bool)
+//@   pure
+
+// VerifEscCookie: the escaped text the cookie encoder puts on the wire for a value.
+func VerifEscCookie(s string) string { return escC(s) }
+
 func VerifCookieText(r *http.Request, name string) string {
 	return pctDecode(specCookieValue(r, name))
 }
@@ -1043,14 +1051,14 @@ func specQueryPieces(s string) []string {
 // decoder's callback receives exactly the items the caller gave the encoder - EXCEPT for the list
 // holding one empty string, which serializes to `p=` and decodes to no item at all (known finding
 // query-form-array-single-empty-item: the first harness is expected to fail its obligation).
-//@ func verifQueryFormArrayChannel(items []string, f func(d Decoder) error) (err error)
-//@   callback f(d Decoder) log vals d.(*constval).v
-//@   requires some: len(items) > 0
-//@   requires free: forall k in (0, len(items)) :: vTrig(items[k]) && noByte(items[k], ',')
-//@   modifies cb:f
-//@   uses splitJoin
-//@   ensures delivered: vCbOK(f) && err == nil ==> vSeqEq(vCbLog(f, "vals"), vCat(old(vCbLog(f, "vals")), items))
-//@   ensures accepted:  vCbOK(f) ==> err == nil
+// @ func verifQueryFormArrayChannel(items []string, f func(d Decoder) error) (err error)
+// @   callback f(d Decoder) log vals d.(*constval).v
+// @   requires some: len(items) > 0
+// @   requires free: forall k in (0, len(items)) :: vTrig(items[k]) && noByte(items[k], ',')
+// @   modifies cb:f
+// @   uses splitJoin
+// @   ensures delivered: vCbOK(f) && err == nil ==> vSeqEq(vCbLog(f, "vals"), vCat(old(vCbLog(f, "vals")), items))
+// @   ensures accepted:  vCbOK(f) ==> err == nil
 func verifQueryFormArrayChannel(items []string, f func(d Decoder) error) error {
 	e := &queryParamEncoder{receiver: &receiver{typ: typeArray, items: items}, values: url.Values{}, paramName: "p", style: QueryStyleForm}
 	if err := e.serialize(); err != nil {
@@ -1061,14 +1069,14 @@ func verifQueryFormArrayChannel(items []string, f func(d Decoder) error) error {
 }
 
 // The same channel with the ambiguous value excluded: proved.
-//@ func verifQueryFormArrayChannelNonEmpty(items []string, f func(d Decoder) error) (err error)
-//@   callback f(d Decoder) log vals d.(*constval).v
-//@   requires some: len(items) > 0 && !(len(items) == 1 && items[0] == "")
-//@   requires free: forall k in (0, len(items)) :: vTrig(items[k]) && noByte(items[k], ',')
-//@   modifies cb:f
-//@   uses splitJoin
-//@   ensures delivered: vCbOK(f) && err == nil ==> vSeqEq(vCbLog(f, "vals"), vCat(old(vCbLog(f, "vals")), items))
-//@   ensures accepted:  vCbOK(f) ==> err == nil
+// @ func verifQueryFormArrayChannelNonEmpty(items []string, f func(d Decoder) error) (err error)
+// @   callback f(d Decoder) log vals d.(*constval).v
+// @   requires some: len(items) > 0 && !(len(items) == 1 && items[0] == "")
+// @   requires free: forall k in (0, len(items)) :: vTrig(items[k]) && noByte(items[k], ',')
+// @   modifies cb:f
+// @   uses splitJoin
+// @   ensures delivered: vCbOK(f) && err == nil ==> vSeqEq(vCbLog(f, "vals"), vCat(old(vCbLog(f, "vals")), items))
+// @   ensures accepted:  vCbOK(f) ==> err == nil
 func verifQueryFormArrayChannelNonEmpty(items []string, f func(d Decoder) error) error {
 	e := &queryParamEncoder{receiver: &receiver{typ: typeArray, items: items}, values: url.Values{}, paramName: "p", style: QueryStyleForm}
 	if err := e.serialize(); err != nil {
@@ -1081,11 +1089,11 @@ func verifQueryFormArrayChannelNonEmpty(items []string, f func(d Decoder) error)
 // Round trip of a header array at the text level: what serialize puts into the header line
 // (strings.Join of the items) splits back into exactly the items (lemma splitJoin), for a non-empty
 // list of items free of ','. The two ends are the contracts above; net/http carries the line.
-//@ func verifHeaderArrayText(items []string) (out []string)
-//@   requires some: len(items) > 0
-//@   requires free: forall k in (0, len(items)) :: vTrig(items[k]) && noByte(items[k], ',')
-//@   uses splitJoin
-//@   ensures rt: vSeqEq(out, items)
+// @ func verifHeaderArrayText(items []string) (out []string)
+// @   requires some: len(items) > 0
+// @   requires free: forall k in (0, len(items)) :: vTrig(items[k]) && noByte(items[k], ',')
+// @   uses splitJoin
+// @   ensures rt: vSeqEq(out, items)
 func verifHeaderArrayText(items []string) []string {
 	return strings.Split(strings.Join(items, ","), ",")
 }
@@ -1188,11 +1196,11 @@ func deepKey(param string, name string) string { return param + "[" + name + "]"
 //     normalization C12), and what the generated server does (NewPathDecoder, DecodeValue).
 // ---------------------------------------------------------------------------
 
-//@ func verifPathValueChannel(param string, style PathStyle, explode bool, v string) (out string, err error)
-//@   requires style:    style == PathStyleSimple || style == PathStyleLabel
-//@   requires nonempty: len(v) > 0
-//@   uses pathEscapeInverse, pathUnescapePlainPrefix, pathUnescapeBytePrefix
-//@   ensures delivered: err == nil && out == v
+// @ func verifPathValueChannel(param string, style PathStyle, explode bool, v string) (out string, err error)
+// @   requires style:    style == PathStyleSimple || style == PathStyleLabel
+// @   requires nonempty: len(v) > 0
+// @   uses pathEscapeInverse, pathUnescapePlainPrefix, pathUnescapeBytePrefix
+// @   ensures delivered: err == nil && out == v
 func verifPathValueChannel(param string, style PathStyle, explode bool, v string) (string, error) {
 	e := NewPathEncoder(PathEncoderConfig{Param: param, Style: style, Explode: explode})
 	if err := e.EncodeValue(v); err != nil {
@@ -1215,9 +1223,9 @@ func verifPathValueChannel(param string, style PathStyle, explode bool, v string
 
 // verifEscPath: the escaped form net/url gives a path that has no RawPath of its own
 // ((&url.URL{Path: p}).EscapedPath()); uninterpreted in proofs, executable in replays.
-//@ func verifEscPath(p string) (r string)
-//@   trusted wrapper around net/url; only its inverse law is assumed (lemma escPathInverse)
-//@   pure
+// @ func verifEscPath(p string) (r string)
+// @   trusted wrapper around net/url; only its inverse law is assumed (lemma escPathInverse)
+// @   pure
 func verifEscPath(p string) string { return (&url.URL{Path: p}).EscapedPath() }
 
 //@ extern func (u *url.URL) EscapedPath() (r string)
@@ -1319,11 +1327,11 @@ func allUnescOK(parts []string) bool {
 //@   trigger canonicalPath(nf(s))
 
 // Property-level harness: what a caller of NormalizeEscapedPath gets, in the property's words.
-//@ func verifNormalizeTwice(s string) (a string, b string, ok1 bool, ok2 bool)
-//@   uses nfIdem, nfWell, nfDecode, nfCanonical
-//@   ensures idempotent: ok1 ==> ok2 && b == a
-//@   ensures meaning:    ok1 ==> pctDecode(a) == pctDecode(s)
-//@   ensures canonical:  ok1 ==> canonicalPath(a)
+// @ func verifNormalizeTwice(s string) (a string, b string, ok1 bool, ok2 bool)
+// @   uses nfIdem, nfWell, nfDecode, nfCanonical
+// @   ensures idempotent: ok1 ==> ok2 && b == a
+// @   ensures meaning:    ok1 ==> pctDecode(a) == pctDecode(s)
+// @   ensures canonical:  ok1 ==> canonicalPath(a)
 func verifNormalizeTwice(s string) (a, b string, ok1, ok2 bool) {
 	a, ok1 = NormalizeEscapedPath(s)
 	if !ok1 {
@@ -1361,3 +1369,4 @@ func verifNormalizeTwice(s string) (a, b string, ok1, ok2 bool) {
 
 var _ strings.Builder
 var _ = io.EOF
+var _ = httpcookie.IsCookieNameValid
